@@ -163,6 +163,7 @@ def verif_threads(ex, a, ins):
         ex.sched = None
     ex.events.append(('sched', '%d scheduling decisions, %d unguarded accesses' % (s.decisions, s.unguarded)))
     ex.pstate['sched_clock'] = s.clock
+    ex.pstate['unguarded'] = ex.pstate.get('unguarded', 0) + s.unguarded
     return None
 
 def verif_now(ex, a, ins):
@@ -194,3 +195,4 @@ def install(ex):
         ex.stubs[p + '.verifThreads3'] = verif_threads
         ex.stubs[p + '.verifNow'] = verif_now
         ex.stubs[p + '.verifTrackShared'] = verif_track
+        ex.stubs[p + '.verifUnguarded'] = lambda ex, a, i: ex.pstate.get('unguarded', 0)
